@@ -298,7 +298,7 @@ class Check:
                 json.dump(
                     {"property": self.pid, "seed": self.seed, "tier": self.tier,
                      "signature": v["signature"], "what": v["what"], "replay": v["replay"],
-                     "broken_obligations": [b["obligation"] for b in self.broken]},
+                     "broken_obligations": sorted({b["obligation"] for b in self.broken})},
                     open(path, "w"), indent=1, default=str)
                 lines.append(f"VIOLATION property={self.pid} replay={path}")
                 if len(seen) >= 5:
@@ -364,4 +364,6 @@ def main_wrapper(fn):
     except subprocess.TimeoutExpired as e:
         print("INFRA: timeout " + str(e), file=sys.stderr)
         sys.exit(2)
-    sys.exit(rc)
+    sys.stdout.flush()
+    sys.stderr.flush()
+    os._exit(rc)  # skip library destructors that complain at interpreter shutdown
